@@ -29,6 +29,7 @@ ASSUMPTIONS = [
     "set elements / map keys are types the driver documents as orderable/serializable keys, contain no nulls and no NaN",
     "a top-level None is only checked as the documented b''<->None convention (part 'null'); support_empty_values is left off",
     "counter appears only as a top-level type; vectors have dimension >= 1 and non-null elements",
+    "a null element of a top-level collection on protocol v1/v2 (16-bit lengths) has no representation and is outside the domain",
 ]
 # the quick tier is ~15 s of single-core work; forking workers costs more than it saves
 SERIAL = os.environ.get("VERIF_TIER") == "quick"
@@ -52,7 +53,8 @@ def _nontrivial(tree, feats):
 
 def _diff_key(sub, d, tree):
     if d["kind"] == "null-as-empty":
-        return [sub, "null-as-empty"]
+        # where the null lived decides the root cause: collections write nulls through to_binary(None)
+        return [sub, "null-as-empty", "collection" if d["parent"] in ("list", "set", "map") else str(d["parent"])]
     if d["kind"] == "empty-as-null":
         return [sub, "empty-as-null", tree["t"] if tree["t"] in ("reversed", "frozen") and not d["path"] else "inner"]
     return [sub, d["leaf"], d["kind"]]
@@ -109,6 +111,10 @@ def interpret_roundtrip(case, ctx):
     shp = _drv.shape(tree)
     feats = _drv.label_case(ctx, tree, value, pv)
     ctx.label("style:%d" % style, "via:" + via)
+    if _drv.null_in_16bit_collection(tree, value, pv):
+        # no representation exists: outside the domain (whether the driver should raise here is not C01's business)
+        ctx.label("skip:null-in-v1/v2-16bit-collection")
+        return
     with ctx.driver(["C01.build", via, V.core(tree)["t"]]):
         typ = _drv.build_type(tree, via)
     if ctx._failures:
